@@ -3,7 +3,6 @@ AuthorizationServer over in-memory stores, following the repository's own
 sqla_oauth2 mixins (client, authorization code, token semantics) and the
 Flask test applications.  Every store access goes through `Store.op`, which
 counts callbacks and can inject a fault at the k-th one (C19)."""
-import secrets
 import time
 
 from authlib.oauth2 import OAuth2Request
@@ -11,6 +10,10 @@ from authlib.oauth2.rfc6749 import AuthorizationServer, ClientMixin, TokenMixin,
 from authlib.oauth2.rfc6749 import grants, list_to_scope, scope_to_list
 from authlib.oauth2.rfc6749.requests import JsonRequest
 from authlib.oauth2.rfc6750 import BearerTokenGenerator
+
+
+from authlib.integrations.sqla_oauth2.client_mixin import OAuth2ClientMixin as _M
+from authlib.integrations.sqla_oauth2.tokens_mixins import OAuth2TokenMixin as _T, OAuth2AuthorizationCodeMixin as _AC
 
 
 class StorageError(Exception):
@@ -44,36 +47,16 @@ class Client(ClientMixin):
         self.token_endpoint_auth_method = token_endpoint_auth_method
         self.jwks = jwks
 
-    def get_client_id(self):
-        return self.client_id
-
-    def get_default_redirect_uri(self):
-        if self.redirect_uris:
-            return self.redirect_uris[0]
-
-    def get_allowed_scope(self, scope):
-        if not scope:
-            return ""
-        allowed = set(self.scope.split())
-        scopes = scope_to_list(scope)
-        return list_to_scope([s for s in scopes if s in allowed])
-
-    def check_redirect_uri(self, redirect_uri):
-        return redirect_uri in self.redirect_uris
-
-    def check_client_secret(self, client_secret):
-        return secrets.compare_digest(self.client_secret, client_secret)
-
-    def check_endpoint_auth_method(self, method, endpoint):
-        if endpoint == "token":
-            return self.token_endpoint_auth_method == method
-        return True
-
-    def check_response_type(self, response_type):
-        return response_type in self.response_types
-
-    def check_grant_type(self, grant_type):
-        return grant_type in self.grant_types
+    # behaviour is the repository's own sqla_oauth2 client mixin, borrowed unbound so that a change to
+    # authlib/integrations/sqla_oauth2/client_mixin.py is observed by every check that uses this integrator
+    get_client_id = _M.get_client_id
+    get_default_redirect_uri = _M.get_default_redirect_uri
+    get_allowed_scope = _M.get_allowed_scope
+    check_redirect_uri = _M.check_redirect_uri
+    check_client_secret = _M.check_client_secret
+    check_endpoint_auth_method = _M.check_endpoint_auth_method
+    check_response_type = _M.check_response_type
+    check_grant_type = _M.check_grant_type
 
 
 class Code(AuthorizationCodeMixin):
@@ -84,20 +67,11 @@ class Code(AuthorizationCodeMixin):
         self.code_challenge, self.code_challenge_method = code_challenge, code_challenge_method
         self.auth_time = int(time.time()) if auth_time is None else auth_time
 
-    def is_expired(self):
-        return self.auth_time + 300 < time.time()
-
-    def get_redirect_uri(self):
-        return self.redirect_uri
-
-    def get_scope(self):
-        return self.scope
-
-    def get_auth_time(self):
-        return self.auth_time
-
-    def get_nonce(self):
-        return self.nonce
+    is_expired = _AC.is_expired
+    get_redirect_uri = _AC.get_redirect_uri
+    get_scope = _AC.get_scope
+    get_auth_time = _AC.get_auth_time
+    get_nonce = _AC.get_nonce
 
 
 class Token(TokenMixin):
@@ -112,22 +86,11 @@ class Token(TokenMixin):
         self.expires_in = expires_in
         self.extra = extra
 
-    def check_client(self, client):
-        return self.client_id == client.get_client_id()
-
-    def get_scope(self):
-        return self.scope
-
-    def get_expires_in(self):
-        return self.expires_in
-
-    def is_revoked(self):
-        return self.access_token_revoked_at or self.refresh_token_revoked_at
-
-    def is_expired(self):
-        if not self.expires_in:
-            return False
-        return self.issued_at + self.expires_in < time.time()
+    check_client = _T.check_client
+    get_scope = _T.get_scope
+    get_expires_in = _T.get_expires_in
+    is_revoked = _T.is_revoked
+    is_expired = _T.is_expired
 
     def get_client(self):
         return None
